@@ -59,6 +59,16 @@ theorem password_case_matters :
     call { user := "admin".toList, pass := "secret".toList } (some { user := "admin".toList, pass := "Secret".toList }) [] = .badPassword := by
   decide
 
+/-- `call_independent_of_history`: the property is per CALL.  In a history of calls on one connection
+the decision for the k-th call is `call` of that call's own credential and metadata — it does not depend
+on the calls before it (no "this connection/peer has authenticated before" state).  Trivial in the
+model, and exactly the assumption the harness ties to the code: histories good → bad → none → good with
+per-call credentials on ONE connection, unary and streaming mixed, each call checked against `call`. -/
+theorem call_independent_of_history (cfg : Cred) (before after : List (Option Cred × List (Str × Str)))
+    (c : Option Cred × List (Str × Str)) :
+    (serve cfg (before ++ c :: after))[before.length]? = some (call cfg c.1 c.2) := by
+  simp [serve]
+
 /-- a caller without credentials is never served -/
 theorem anonymous_rejected (cfg : Cred) : call cfg none [] ≠ .served := by
   simp [call, wire, wireOk, doAuth, values]
@@ -69,6 +79,16 @@ theorem wrong_password_rejected (cfg c : Cred) (extra : List (Str × Str))
   rw [Ne, call_served_iff]
   unfold presents
   simp [wire, values, hu, hp]
+
+/-- in particular a wrong password is rejected after any number of successful calls -/
+theorem bad_call_rejected_after_good_calls (cfg bad : Cred) (n : Nat) (hu : lower bad.user = lower cfg.user)
+    (hp : bad.pass ≠ cfg.pass) :
+    (serve cfg (List.replicate n (some cfg, []) ++ [(some bad, [])])).getLast? ≠ some .served := by
+  have : (serve cfg (List.replicate n (some cfg, []) ++ [(some bad, [])])).getLast? = some (call cfg (some bad) []) := by
+    simp [serve]
+  rw [this]
+  intro h
+  exact wrong_password_rejected cfg bad [] hu hp (Option.some.inj h)
 
 /-- the decidable specification evaluated by the oracle holds of the model on every input -/
 theorem call_meets_spec (cfg : Cred) (cred : Option Cred) (extra : List (Str × Str)) :
